@@ -175,7 +175,7 @@ def run(run, tier, seed, replay_case=None):
     if tier == "quick":
         cases = list(corpus) + random.Random(seed).sample(ex, 70) + [gen_case(rng, tier) for _ in range(260)]
     else:
-        cases = list(corpus) + ex + [gen_case(rng, tier) for _ in range(3000)]
+        cases = list(corpus) + ex + [gen_case(rng, tier) for _ in range(2000)]
     if replay_case is not None:
         cases = [replay_case]
     cases, I, R, S = G.run_generic(run, PROP, cases, cmd, model, pr, simplifications,
